@@ -61,3 +61,75 @@ package cmp
 //@   ensures [region] bothDurations(fd, x, y) ==> ok && equal == (abs(nanosOf(durOf(x)) - nanosOf(durOf(y))) <= d)
 //@   modifies nothing
 //@   replay DurationWithin(durOf(x).Seconds, durOf(x).Nanos, durOf(y).Seconds, durOf(y).Nanos, d)
+//@
+//@ // ---- timestamp tolerance ----
+//@ pure func isTimestampMsg(m) = m.Descriptor().FullName() == "google.protobuf.Timestamp"
+//@ pure func tsOf(v) = cast(v.Message().Interface(), *timestamppb.Timestamp)
+//@ pure func instOf(p) = p.Seconds * 1000000000 + p.Nanos
+//@ pure func validTsMsg(p) = 0 - 62135596800 <= p.Seconds && p.Seconds <= 253402300799 && 0 <= p.Nanos && p.Nanos <= 999999999
+//@ pure func bothTimestamps(fd, x, y) = fd.Kind() == protoreflect.MessageKind && isTimestampMsg(x.Message()) && isTimestampMsg(y.Message()) && x.Message().IsValid() && y.Message().IsValid()
+//@
+//@ func TimeValueWithin$1(fd, x, y) (equal, ok)
+//@   requires fd != nil && d >= 0 && d < 9223372036854775807   // time.Time.Sub saturates at the largest Duration
+//@   requires isTimestampMsg(x.Message()) ==> validTsMsg(tsOf(x))
+//@   requires isTimestampMsg(y.Message()) ==> validTsMsg(tsOf(y))
+//@   ensures [own-kind] (fd.Kind() != protoreflect.MessageKind || (!isTimestampMsg(x.Message()) && !isTimestampMsg(y.Message()))) ==> !ok
+//@   ensures [mixed] fd.Kind() == protoreflect.MessageKind && isTimestampMsg(x.Message()) != isTimestampMsg(y.Message()) ==> ok && !equal
+//@   ensures [region] bothTimestamps(fd, x, y) ==> ok && equal == (abs(instOf(tsOf(x)) - instOf(tsOf(y))) <= d)
+//@   modifies nothing
+//@
+//@ lemma withinSymmetricReflexive(a mathint, b mathint, d mathint)
+//@   requires d >= 0
+//@   ensures (abs(a - b) <= d) == (abs(b - a) <= d)
+//@   ensures abs(a - a) <= d
+//@
+//@ // ---- percentage tolerance for durations ----
+//@ func DurationValueWithinP$1(fd, x, y) (equal, ok)
+//@   requires fd != nil && isFin(p) && p >= 0
+//@   requires isDurationMsg(x.Message()) ==> validDurMsg(durOf(x))
+//@   requires isDurationMsg(y.Message()) ==> validDurMsg(durOf(y))
+//@   ensures [own-kind] (fd.Kind() != protoreflect.MessageKind || (!isDurationMsg(x.Message()) && !isDurationMsg(y.Message()))) ==> !ok
+//@   ensures [reflexive] bothDurations(fd, x, y) && nanosOf(durOf(x)) == nanosOf(durOf(y)) ==> equal
+//@   modifies nothing
+//@   replay [reflexive] DurationWithinP()
+//@
+//@ // ---- combinators: conjunction / disjunction over the comparers that answered (ok) ----
+//@ pure func answered(eqs, j, fd, x, y) = app1(eqs[j], fd, x, y)
+//@ pure func equalAt(eqs, j, fd, x, y) = app0(eqs[j], fd, x, y)
+//@ pure func allNonNil(eqs) = forall j int :: 0 <= j && j < len(eqs) ==> eqs[j] != nil
+//@
+//@ func ValueAnd$1(fd, x, y) (equal, ok)
+//@   requires allNonNil(eqs)
+//@   ensures [ok] ok == (exists j int :: 0 <= j && j < len(eqs) && answered(eqs, j, fd, x, y))
+//@   ensures [conjunction] equal == (forall j int :: 0 <= j && j < len(eqs) && answered(eqs, j, fd, x, y) ==> equalAt(eqs, j, fd, x, y))
+//@   modifies nothing
+//@   loop 0 (k):
+//@     invariant 0 <= k && k <= len(eqs)
+//@     invariant ok == (exists j int :: 0 <= j && j < k && answered(eqs, j, fd, x, y))
+//@     invariant forall j int :: 0 <= j && j < k && answered(eqs, j, fd, x, y) ==> equalAt(eqs, j, fd, x, y)
+//@
+//@ func ValueOr$1(fd, x, y) (equal, ok)
+//@   requires allNonNil(eqs)
+//@   ensures [ok] ok == (exists j int :: 0 <= j && j < len(eqs) && answered(eqs, j, fd, x, y))
+//@   ensures [disjunction] equal == (exists j int :: 0 <= j && j < len(eqs) && answered(eqs, j, fd, x, y) && equalAt(eqs, j, fd, x, y))
+//@   modifies nothing
+//@   loop 0 (k):
+//@     invariant 0 <= k && k <= len(eqs)
+//@     invariant ok == (exists j int :: 0 <= j && j < k && answered(eqs, j, fd, x, y))
+//@     invariant forall j int :: 0 <= j && j < k && answered(eqs, j, fd, x, y) ==> !equalAt(eqs, j, fd, x, y)
+//@
+//@ func And$1(x, y) (r)
+//@   requires allNonNil(eqs)
+//@   ensures [conjunction] r == (forall j int :: 0 <= j && j < len(eqs) ==> app0(eqs[j], x, y))
+//@   modifies nothing
+//@   loop 0 (k):
+//@     invariant 0 <= k && k <= len(eqs)
+//@     invariant forall j int :: 0 <= j && j < k ==> app0(eqs[j], x, y)
+//@
+//@ func Or$1(x, y) (r)
+//@   requires allNonNil(eqs)
+//@   ensures [disjunction] r == (exists j int :: 0 <= j && j < len(eqs) && app0(eqs[j], x, y))
+//@   modifies nothing
+//@   loop 0 (k):
+//@     invariant 0 <= k && k <= len(eqs)
+//@     invariant forall j int :: 0 <= j && j < k ==> !app0(eqs[j], x, y)
